@@ -438,7 +438,7 @@ void h_le_ctor_num_var(void){ IN(Z, n); INVAR(x); HG; LE r; LEN(C2ES1_N4crab8var
  * coefficient of x in the result is the sum of the coefficients of the variables renamed to x, the result is well
  * formed, and value(rename(e, rho)) under val = value(e) under val o rho */
 #if NT <= 2
-//@check id=le_rename_q fn=_ZNK4ikos17linear_expressionINS_8z_numberE2VNE6renameI2RMEES3_RKT_ tag=le_rename harness=h_le_rename props=C20 defs=LINCST_CONCRETE,NT=1 vary=SZ1:0-1 unwind=3 mem=6 cost=5 bounded="<=1 term" timeout=300 first_timeout=200
+//@check id=le_rename_q fn=_ZNK4ikos17linear_expressionINS_8z_numberE2VNE6renameI2RMEES3_RKT_ tag=le_rename harness=h_le_rename props=C20 defs=LINCST_CONCRETE,NT=1 vary=SZ1:0-1 unwind=3 mem=8 cost=5 bounded="<=1 term" timeout=600 first_timeout=400
 //@check id=le_rename fn=_ZNK4ikos17linear_expressionINS_8z_numberE2VNE6renameI2RMEES3_RKT_ props=C20 tier=thorough defs=LINCST_CONCRETE,NT=2,NO_EVAL vary=SZ1:0-2 unwind=5 cost=9 mem=14 bounded="<=2 terms" timeout=900 first_timeout=600
 //@check id=le_rename_eval fn=_ZNK4ikos17linear_expressionINS_8z_numberE2VNE6renameI2RMEES3_RKT_ tag=le_rename harness=h_le_rename props=C20 tier=thorough defs=LINCST_CONCRETE,NT=1,ONLY_EVAL defs_thorough=LINCST_CONCRETE,NT=2,ONLY_EVAL unwind=3 unwind_thorough=5 vary_thorough=SZ1:0-1 bounded="<=1 term" bounded_thorough="<=1 term" timeout=900 first_timeout=600 timeout_thorough=3600 first_timeout_thorough=3000
 #define RHOREC(A, i) RECORD(unsigned char, A##_rh##i, RHO_HAS(FM_IDX(&A.m, i)) ? 1 : 0); RECORD(uint64_t, A##_r##i, RHO(FM_IDX(&A.m, i))); RECORD(i128, A##_rv##i, VAL(FM_RIDX(&A.m, i)))
